@@ -42,6 +42,10 @@ def run(ctx):
             # large components: many pattern matches (several hundred each, more than a thousand together)
             big = ['C' * 21, 'C' * 22, 'CC(C)' * 7 + 'C', 'C' * 18]
             pairs += [(big[0], big[1]), (big[2], big[1]), (big[3], big[3]), (big[0], 'CCO')]
+        # components that are exactly ONE group (as many atoms as the centre pattern that matches them), alone, doubled and mixed
+        tiny = ['C', 'O', '[HH]', 'O=C=O', '[CH3]', '[OH]', 'C=O'] if lib in molgen.GAS_LIBS else ['C', 'O', '[HH]', '[Pt]', 'C[Pt]', 'O=C=O']
+        for t in tiny:
+            pairs += [(t, t), (t, 'CC'), ('CCO', t), (t, rng.choice(tiny))]
         for comp in pairs:
             jobs.append({'lib': lib, 'smiles': list(comp) + ['.'.join(comp)], 'timeout': 300})
             meta.append((lib, comp))
